@@ -796,3 +796,137 @@ Proof.
     destruct e as [i h|dt]; cbn [step]; [apply logok_run_task; assumption|]. destruct (0 <=? dt); exact HL. }
   apply G; [apply tall_init|]. intros i tk kd ex H. destruct H.
 Qed.
+
+(* ---------- every block commits at most once ---------- *)
+Definition prank (p : phase) : nat := match p with PBody _ => 0 | PCommitDel => 1 | PCommitSet => 2 | PUnlock => 3 end.
+
+Lemma run_task_rank c i h x x' : cur (tasks c i) = Some x -> cur (tasks (fst (run_task c i h)) i) = Some x' ->
+  ttoken x' = ttoken x /\ (prank (tphase x) <= prank (tphase x'))%nat.
+Proof.
+  intros Hcur. unfold run_task.
+  destruct (now c <? wake (tasks c i)); [cbn; rewrite Hcur; intros [= <-]; split; [reflexivity|lia]|].
+  rewrite Hcur.
+  destruct (tphase x) as [[|cm pend]| | |] eqn:Hph.
+  - destruct (tfail x); [|destruct (braise (tblock x))]; cbn; rewrite upd_same; cbn; intros [= <-]; cbn; split; try reflexivity; lia.
+  - destruct (match tmode x with Fast => false | _ => is_write cm && negb (heldb (theld x) (lock_key (tmode x) (cmd_key cm))) end).
+    + destruct (lock_free c _).
+      * cbn. rewrite upd_same. cbn. intros [= <-]. cbn. split; [reflexivity|lia].
+      * cbn. rewrite upd_same. cbn. intros [= <-].
+        destruct (match tbudget x with Some n => n | None => attempts c end) as [|[|n]]; cbn; split; try reflexivity; lia.
+    + unfold body_cmd. destruct cm; cbn;
+        repeat match goal with
+               | |- context[if ?b then _ else _] => destruct b
+               | |- context[match lookup ?a ?b with _ => _ end] => destruct (lookup a b)
+               | |- context[let '(_, _) := ?p in _] => destruct p
+               end; cbn; rewrite upd_same; cbn; intros [= <-]; cbn; split; try reflexivity; lia.
+  - destruct (tdel x); cbn; rewrite upd_same; cbn; intros [= <-]; cbn; rewrite ?Hph; cbn; split; try reflexivity; lia.
+  - destruct (tov x); cbn; rewrite upd_same; cbn; intros [= <-]; cbn; split; try reflexivity; lia.
+  - destruct (theld x) as [|[lk0 d0] hr]; cbn; rewrite upd_same; cbn; [discriminate|]. intros [= <-]. cbn. split; [reflexivity|lia].
+Qed.
+
+Definition wk_eqb (a b : wkind) : bool := match a, b with WDirect, WDirect | WDelMany, WDelMany | WSetMany, WSetMany => true | _, _ => false end.
+Fixpoint cnt (kd : wkind) (tk : nat) (log : list (nat * nat * wkind * list lcmd)) : nat :=
+  match log with
+  | [] => 0
+  | (_, tk', kd', _) :: r => (if Nat.eqb tk' tk && wk_eqb kd' kd then 1 else 0) + cnt kd tk r
+  end.
+Lemma cnt_app kd tk a b : cnt kd tk (a ++ b) = (cnt kd tk a + cnt kd tk b)%nat.
+Proof. induction a as [|[[[? ?] ?] ?] a IH]; cbn; [reflexivity|]. rewrite IH. lia. Qed.
+
+Lemma run_task_fresh c i h :
+  fresh (fst (run_task c i h)) = fresh c \/
+  (fresh (fst (run_task c i h)) = S (fresh c) /\ cur (tasks c i) = None /\
+   exists x', cur (tasks (fst (run_task c i h)) i) = Some x' /\ ttoken x' = fresh c).
+Proof.
+  destruct (run_task_lock_action c i h) as [_ _ Hf _| _ _ Hf Hi Hi'|? ? ? _ Hf _ _ _ _ _|? ? ? _ Hf _ _ _|? _ _ Hf _ _]; try (left; exact Hf).
+  right. split; [exact Hf|]. unfold lk_of in Hi, Hi'. destruct (cur (tasks c i)); [discriminate|]. split; [reflexivity|].
+  destruct (cur (tasks (fst (run_task c i h)) i)) as [x'|]; [|discriminate]. cbn in Hi'. injection Hi' as E _. eauto.
+Qed.
+
+(* what the write log can hold for a transaction token: at most one delete_many and one set_many, and none before the
+   transaction reaches the corresponding point of its commit *)
+Definition WI (c : cfg) : Prop :=
+  (forall tk, (cnt WDelMany tk (wlog c) <= 1)%nat /\ (cnt WSetMany tk (wlog c) <= 1)%nat) /\
+  (forall i x, cur (tasks c i) = Some x ->
+      ((prank (tphase x) <= 1)%nat -> cnt WDelMany (ttoken x) (wlog c) = 0%nat) /\
+      ((prank (tphase x) <= 2)%nat -> cnt WSetMany (ttoken x) (wlog c) = 0%nat)) /\
+  (forall tk, (fresh c <= tk)%nat -> cnt WDelMany tk (wlog c) = 0%nat /\ cnt WSetMany tk (wlog c) = 0%nat).
+
+Lemma wi_run_task c i h : LInv c -> WI c -> WI (fst (run_task c i h)).
+Proof.
+  intros (L1 & L2 & L3 & L4) (W1 & W2 & W3).
+  pose proof (run_task_frame c i h) as F. pose proof (run_task_fresh c i h) as Fr.
+  pose proof (fun x x' => run_task_rank c i h x x') as Rk.
+  destruct (run_task_data_action c i h) as [A|E]; [|rewrite E; exact (conj W1 (conj W2 W3))].
+  remember (fst (run_task c i h)) as c' eqn:Ec'.
+  assert (Hfr : (fresh c <= fresh c')%nat) by (destruct Fr as [->|(-> & _)]; lia).
+  (* the steps that do not append a commit entry *)
+  assert (NoCommit : (forall kd tk, kd <> WDirect -> cnt kd tk (wlog c') = cnt kd tk (wlog c)) -> WI c').
+  { intro Hc. assert (HcD : forall tk, cnt WDelMany tk (wlog c') = cnt WDelMany tk (wlog c)) by (intro; apply Hc; discriminate).
+    assert (HcS : forall tk, cnt WSetMany tk (wlog c') = cnt WSetMany tk (wlog c)) by (intro; apply Hc; discriminate).
+    split; [intro tk; rewrite HcD, HcS; apply W1|]. split.
+    - intros j y Hy. rewrite HcD, HcS. destruct (Nat.eq_dec j i) as [->|Hne]; [|rewrite F in Hy by exact Hne; apply W2 with (i := j); exact Hy].
+      destruct (cur (tasks c i)) as [x|] eqn:Hx.
+      + destruct (Rk x y eq_refl Hy) as [Et Er]. rewrite Et. destruct (W2 i x Hx) as [A1 A2]. split; intro Hr; [apply A1|apply A2]; lia.
+      + destruct Fr as [Ef|(_ & _ & x' & Hx' & Et)].
+        * (* no transaction before and none begun: impossible to have one now except through begin *)
+          exfalso. destruct (run_task_lock_action c i h) as [_ _ _ Hi| _ _ Hf' _ _|? ? ? _ _ Hi _ _ _ _|? ? ? _ _ Hi _ _|? _ _ _ Hi _];
+            rewrite <- ?Ec' in *; unfold lk_of in *; rewrite ?Hx, ?Hy in *; try discriminate. lia.
+        * rewrite Hy in Hx'. injection Hx' as <-. rewrite Et. destruct (W3 (fresh c) (le_n _)) as [Z1 Z2]. split; intros _; assumption.
+    - intros tk Hk. rewrite HcD, HcS. apply W3. lia. }
+  destruct A as [x x' Hs Hw | Hs Hw | x' b rest Hs Hw | cm rest Hc Hc' Hit Hwr Hs Hw | x x' l pend Hs Hw | x x' Hs Hw
+                 | x x' Hc Hc' Hph Hph' Hs Hw | x x' Hc Hc' Hph Hph' Hs Hw].
+  - apply NoCommit. intros. rewrite Hw. reflexivity.
+  - apply NoCommit. intros. rewrite Hw. reflexivity.
+  - apply NoCommit. intros. rewrite Hw. reflexivity.
+  - apply NoCommit. intros kd tk Hk. rewrite Hw, cnt_app. cbn. destruct kd; try contradiction; rewrite andb_false_r; lia.
+  - apply NoCommit. intros. rewrite Hw. reflexivity.
+  - apply NoCommit. intros. rewrite Hw. reflexivity.
+  - (* delete_many of the commit *)
+    destruct (Rk x x' Hc Hc') as [Et _].
+    assert (Ltk : (ttoken x < fresh c)%nat) by (apply (L2 i (ttoken x) (theld x)); unfold lk_of; rewrite Hc; reflexivity).
+    destruct (W2 i x Hc) as [A1 A2]. rewrite Hph in A1, A2. specialize (A1 ltac:(cbn; lia)). specialize (A2 ltac:(cbn; lia)).
+    assert (CD : forall tk, cnt WDelMany tk (wlog c') = (cnt WDelMany tk (wlog c) + (if Nat.eqb (ttoken x) tk then 1 else 0))%nat).
+    { intro tk. rewrite Hw, cnt_app. cbn. destruct (Nat.eqb (ttoken x) tk); cbn; lia. }
+    assert (CS : forall tk, cnt WSetMany tk (wlog c') = cnt WSetMany tk (wlog c)).
+    { intro tk. rewrite Hw, cnt_app. cbn. rewrite andb_false_r. lia. }
+    split; [|split].
+    + intro tk. rewrite CD, CS. destruct (W1 tk) as [B1 B2]. split; [|exact B2]. destruct (Nat.eqb_spec (ttoken x) tk) as [<-|]; lia.
+    + intros j y Hy. rewrite CD, CS. destruct (Nat.eq_dec j i) as [->|Hne].
+      * rewrite Hc' in Hy. injection Hy as <-. rewrite Et, Hph'. cbn. split; [lia|intros _; exact A2].
+      * rewrite F in Hy by exact Hne. destruct (W2 j y Hy) as [B1 B2].
+        assert (Hd : ttoken x <> ttoken y).
+        { intro E. apply Hne. symmetry. apply (L3 i j (ttoken x) (theld x) (theld y)); unfold lk_of; rewrite ?Hc, ?Hy; cbn; congruence. }
+        destruct (Nat.eqb_spec (ttoken x) (ttoken y)); [contradiction|]. split; [intro Hr; rewrite (B1 Hr); lia|exact B2].
+    + intros tk Hk. rewrite CD, CS. destruct (W3 tk ltac:(lia)) as [Z1 Z2]. destruct (Nat.eqb_spec (ttoken x) tk); [lia|]. split; [lia|exact Z2].
+  - (* set_many of the commit *)
+    destruct (Rk x x' Hc Hc') as [Et _].
+    assert (Ltk : (ttoken x < fresh c)%nat) by (apply (L2 i (ttoken x) (theld x)); unfold lk_of; rewrite Hc; reflexivity).
+    destruct (W2 i x Hc) as [_ A2]. rewrite Hph in A2. specialize (A2 ltac:(cbn; lia)).
+    assert (CS : forall tk, cnt WSetMany tk (wlog c') = (cnt WSetMany tk (wlog c) + (if Nat.eqb (ttoken x) tk then 1 else 0))%nat).
+    { intro tk. rewrite Hw, cnt_app. cbn. destruct (Nat.eqb (ttoken x) tk); cbn; lia. }
+    assert (CD : forall tk, cnt WDelMany tk (wlog c') = cnt WDelMany tk (wlog c)).
+    { intro tk. rewrite Hw, cnt_app. cbn. rewrite andb_false_r. lia. }
+    split; [|split].
+    + intro tk. rewrite CD, CS. destruct (W1 tk) as [B1 B2]. split; [exact B1|]. destruct (Nat.eqb_spec (ttoken x) tk) as [<-|]; lia.
+    + intros j y Hy. rewrite CD, CS. destruct (Nat.eq_dec j i) as [->|Hne].
+      * rewrite Hc' in Hy. injection Hy as <-. rewrite Hph'. cbn. split; intro; lia.
+      * rewrite F in Hy by exact Hne. destruct (W2 j y Hy) as [B1 B2].
+        assert (Hd : ttoken x <> ttoken y).
+        { intro E. apply Hne. symmetry. apply (L3 i j (ttoken x) (theld x) (theld y)); unfold lk_of; rewrite ?Hc, ?Hy; cbn; congruence. }
+        destruct (Nat.eqb_spec (ttoken x) (ttoken y)); [contradiction|]. split; [exact B1|intro Hr; rewrite (B2 Hr); lia].
+    + intros tk Hk. rewrite CD, CS. destruct (W3 tk ltac:(lia)) as [Z1 Z2]. destruct (Nat.eqb_spec (ttoken x) tk); [lia|]. split; [exact Z1|lia].
+Qed.
+
+Lemma wi_init progs st tmo att : WI (init progs st tmo att).
+Proof. repeat split; intros; try discriminate; cbn; lia. Qed.
+
+Theorem tx_commit_at_most_once progs st tmo att evs tk :
+  let c := run_from (init progs st tmo att) evs in
+  (cnt WDelMany tk (wlog c) <= 1)%nat /\ (cnt WSetMany tk (wlog c) <= 1)%nat.
+Proof.
+  assert (G : forall evs c0, LInv c0 -> WI c0 -> WI (run_from c0 evs)).
+  { clear. induction evs as [|e evs IH]; intros c0 HL HW; cbn; [exact HW|]. apply IH; [apply linv_step; exact HL|].
+    destruct e as [i h|dt]; cbn [step]; [apply wi_run_task; assumption|]. destruct (0 <=? dt); exact HW. }
+  intro c. destruct (G evs _ (linv_init progs st tmo att) (wi_init progs st tmo att)) as (W1 & _). apply W1.
+Qed.
